@@ -115,7 +115,8 @@ def decide(prop, tier, seed, jobs_n, only=None, verbose=False):
             tj = dict(j, twin=True, timeout=min(120, float(j.get("timeout", 30))))
             jobs.append(tj)
     # long jobs first
-    order = sorted(range(len(jobs)), key=lambda i: -float(jobs[i].get("timeout", 30)) * (0.2 if jobs[i].get("twin") else 1))
+    order = sorted(range(len(jobs)), key=lambda i: -float(jobs[i].get("timeout", 30)) * float(jobs[i].get("weight", 1))
+                   * (0.2 if jobs[i].get("twin") else 1))
     results = [None] * len(jobs)
     with cf.ThreadPoolExecutor(max_workers=jobs_n) as ex:
         futs = {ex.submit(run_job, jobs[i]): i for i in order}
